@@ -132,7 +132,21 @@ static void mon_publish(int p, extension_item* replaced, int o) {
     if (POOL_ITEM_C(q)->next != replaced || !XV_IS_RELEASE(o)) mon_bad_publish = 1;
   }
 }
+/* do_grow monitor: the new block becomes visible to every other thread with the store to data_block; everything do_grow writes into
+   the new block (bucket states, slots, heads, extension items) is written before that store, which is release-or-stronger */
+_Bool gw_on, gw_published, gw_bad; unsigned gw_new_stores, gw_publications; int gw_publish_order;
+static void mon_grow_store(void* addr, uint64_t v, int o) {
+  if (addr == (void*)&g_map.data_block) { if ((block_t*)v == &g_blk2) { gw_published = 1; gw_publications++; gw_publish_order = o; } return; }
+  _Bool hit = 0;
+  for (int t = 0; t < 2 * NB; ++t) {
+    if (addr == (void*)&g_bk2[t].state || addr == (void*)&g_bk2[t].head) hit = 1;
+    for (int i = 0; i < NSLOT; ++i) if (addr == (void*)&g_bk2[t].key[i] || addr == (void*)&g_bk2[t].value[i]) hit = 1;
+  }
+  for (int p = 0; p < POOL; ++p) { extension_item* x = POOL2_ITEM_C(p); if (addr == (void*)&x->key || addr == (void*)&x->value || addr == (void*)&x->next) hit = 1; }
+  if (hit) { gw_new_stores++; if (gw_published) gw_bad = 1; }
+}
 static void mon_store(void* addr, uint64_t v, int o) {
+  if (gw_on) mon_grow_store(addr, v, o);
   if (lk_on) lk_stores++;
   if (gi_on && addr == (void*)&g_B->state) { gi_bucket_stores++; gi_bucket_stored = (bstate_t)v; gi_bucket_store_clock = xv_clock; }
   if (!mon_on) return;
